@@ -142,12 +142,17 @@ let dispatch op args = match op, args with
       L [(match m with Refused -> N | Ok (a, b) -> L [L (List.map vzl a); L (List.map vzl b)]); L [L (List.map vzl s1); L (List.map vzl s2)]]
   | "nonzero", [x] -> let ((a, b), (c, d)) = op_nonzero (zll x) in L [L [vzl a; vzl b]; L [vzl c; vzl d]]
   | "subset", [x; L m] -> let (md, sp) = op_subset (zll x) (List.map bl m) in L [vrows md; L (List.map vzl sp)]
+  | "rl2_mean", [x] ->
+      let vpl l = L (List.map (fun (a, b) -> L [vz a; vz b]) l) in
+      let (m, sp) = rl2_mean_Z (zll x) in
+      L [(match m with None -> N | Some ((ev, vs), dec) -> L [vzl ev; vpl vs; vpl dec]); vpl sp]
   | "rl2_any", [x] -> let ((ev, vs), dec), sp = rl2_any_Z (zll x) in L [L [vzl ev; vzl vs; vzl dec]; vzl sp]
   | "rslice1d", [x; st; en] -> let (md, sp) = op_rslice1d (zl x) (zl st) (zl en) in L [vrows md; L (List.map vzl sp)]
   | "rslice2d", [x; w; st; en] -> let (md, sp) = op_rslice2d (zll x) (zi w) (zl st) (zl en) in L [vrows md; L (List.map vzl sp)]
   | "rslice", [x; st; en] -> let (md, sp) = op_rslice (zll x) (zl st) (zl en) in L [vrows md; L (List.map vzl sp)]
   | "padded", [x; fill; left] -> let (md, sp) = op_padded (zll x) (zi fill) (zi left <> Z0) in L [vrows md; L (List.map vzl sp)]
   | "colsum", [x] -> let (md, sp) = op_colsum (zll x) in L [vzl md; vzl sp]
+  | "colmean", [x] -> let vpl l = L (List.map (fun (a, b) -> L [vz a; vz b]) l) in let (md, sp) = op_colmean (zll x) in L [vpl md; vpl sp]
   | "colcounts", [x] -> let (md, sp) = op_colcounts (zll x) in L [vzl md; vzl sp]
   | "where", [x; L m; y] -> let (md, sp) = op_where (zll x) (List.map bl m) (zll y) in L [vrows md; L (List.map vzl sp)]
   | "where_s", [x; L m; y] -> let (md, sp) = op_where_s (zll x) (List.map bl m) (zi y) in L [vrows md; L (List.map vzl sp)]
@@ -176,6 +181,7 @@ let dispatch op args = match op, args with
        | I (Zpos (XO (XO (XO XH)))), [c; v] -> obs (rl2_map (fun e -> zop (zi c) (zi v) e) x)
        | I (Zpos (XI (XO (XO XH)))), [c; col] -> obs (rl2_map_col (fun e k -> zop (zi c) e k) x (zl col))
        | I (Zpos (XO (XI (XO XH)))), [c; col] -> obs (rl2_map_col (fun e k -> zop (zi c) k e) x (zl col))
+       | I (Zpos (XI (XI (XO XH)))), [] -> let ((a, b), m) = rl2_rowagg x in L [vzl a; vzl b; L (List.map (fun (s, c) -> L [vz s; vz c]) m)]
        | _ -> failwith "rl2 op")
   | "geo", [ls] ->
       let pk ((a, b), (c, d)) = L [vzl a; vzl b; vzl c; vz d] in L [pk (geo_model (zl ls)); pk (geo_spec (zl ls))]
